@@ -27,7 +27,7 @@ ASSUMPTIONS = [
     'a 5xx whose body is the service\'s "Synthetic <code> for ..." text, with <code> named by an error-injection '
     'parameter of that very request and no captured exception, is a requested error (judged by exploration 3)',
     'crash signature = (exception type, innermost frame under the repository: file, function) - no line numbers',
-    'unbounded = no answer within 10 s (typical request: 5-15 ms)',
+    'unbounded = no answer within 10 s of CPU time of the worker (typical request: 5-15 ms; wall-clock backstop 300 s)',
     'for direct parser calls a reported parse error is any Exception raised in bounded time',
 ]
 NOW = datetime.datetime(2024, 3, 1, 12, 0, 3, 500000, tzinfo=datetime.timezone.utc)
@@ -105,7 +105,8 @@ _variants = {}
 
 
 def choice_variants(name):
-    """Every value the option registers as a choice, and its upper-case / capitalised / padded spellings."""
+    """Every value the option registers as a choice, its upper-case / capitalised / padded spellings and its use as the
+    head of a structured value."""
     if not _variants:
         from dashlive.server.options.repository import OptionsRepository
         for o in OptionsRepository.get_dash_options():
@@ -115,7 +116,8 @@ def choice_variants(name):
                 if v is None:
                     continue
                 v = str(v)
-                for x in (v, v.upper(), v.capitalize(), v + ' ', ' ' + v):
+                # ... and the value used as the head of a structured value (drm=<system>-<location>, lists, code=position)
+                for x in (v, v.upper(), v.capitalize(), v + ' ', ' ' + v, v + '-nowhere', v + '-', v + ',nowhere', v + '=nowhere'):
                     if x not in vals:
                         vals.append(x)
             _variants[o.cgi_name] = vals
